@@ -618,4 +618,245 @@ theorem Frame.sigEq {p : Prog} {s s' : State} {k : Nat} (h : InvR p s) (fr : Fra
 theorem MarkRel.sigEq {p : Prog} {s s' : State} (h : MarkRel s s') : SigEq p (envOf s) (envOf s') :=
   SigEq.of_val (fun i _ _ => h.val i)
 
+/-! ## at most one run per change, at the level of the log
+
+Between two consecutive `ran w` events of the log, `w` made a tracked read `rdv w x v` (during the
+first of the two runs) and AFTER that read `x` changed (`set x` for a signal, `changed x` for a memo). -/
+
+/-- `x` is not an effect of `p` -/
+def notEffP (p : Prog) (x : Nat) : Prop := ∀ b, p[x]? ≠ some (.eff b)
+
+theorem InvR.notEffP {p : Prog} {s : State} (h : InvR p s) {x : Nat} (hk : (s.get x).kind ≠ .eff) :
+    notEffP p x := by
+  intro b hd
+  exact hk (h.kind x _ hd)
+
+def HasChg (x : Nat) (l : List Ev) : Prop := Ev.set x ∈ l ∨ Ev.changed x ∈ l
+
+theorem HasChg.append_right {x : Nat} {l : List Ev} (h : HasChg x l) (l' : List Ev) : HasChg x (l ++ l') := by
+  rcases h with h | h
+  · exact .inl (List.mem_append_left _ h)
+  · exact .inr (List.mem_append_left _ h)
+
+theorem HasChg.append_left {x : Nat} {l : List Ev} (h : HasChg x l) (l' : List Ev) : HasChg x (l' ++ l) := by
+  rcases h with h | h
+  · exact .inl (List.mem_append_right _ h)
+  · exact .inr (List.mem_append_right _ h)
+
+/-- the last run of `w` in `pre` made a tracked read of some `x` which changed afterwards -/
+def RunJust (pre : List Ev) (w : Nat) : Prop :=
+  ∃ l1 m1 m2 x v, pre = l1 ++ Ev.ran w :: (m1 ++ Ev.rdv w x v :: m2) ∧ Ev.ran w ∉ m1 ∧ Ev.ran w ∉ m2 ∧
+    HasChg x m2
+
+/-- every `ran w` of `suf` that is not the first run of `w` in `pre ++ suf` is justified by the log before it -/
+def SepFrom : List Ev → List Ev → Prop
+  | _, [] => True
+  | pre, ev :: rest => (∀ w, ev = Ev.ran w → Ev.ran w ∈ pre → RunJust pre w) ∧ SepFrom (pre ++ [ev]) rest
+
+theorem SepFrom.append {pre : List Ev} : ∀ {a b : List Ev},
+    SepFrom pre (a ++ b) ↔ SepFrom pre a ∧ SepFrom (pre ++ a) b := by
+  intro a
+  induction a generalizing pre with
+  | nil => intro b; simp [SepFrom]
+  | cons ev a ih =>
+    intro b
+    simp only [List.cons_append, SepFrom]
+    rw [ih]
+    simp [and_assoc]
+
+theorem SepFrom.of_noRan {suf : List Ev} (h : ∀ w, Ev.ran w ∉ suf) : ∀ pre, SepFrom pre suf := by
+  induction suf with
+  | nil => intro _; trivial
+  | cons ev suf ih =>
+    intro pre
+    refine ⟨fun w hw _ => absurd (by rw [hw]; exact List.mem_cons_self) (h w), ih (fun w hw => h w (List.mem_cons_of_mem _ hw)) _⟩
+
+theorem SepFrom.split {pre suf a b : List Ev} {w : Nat} (h : SepFrom pre suf) (hs : suf = a ++ Ev.ran w :: b)
+    (hm : Ev.ran w ∈ pre ++ a) : RunJust (pre ++ a) w := by
+  subst hs
+  have := (SepFrom.append.1 h).2
+  exact this.1 w rfl hm
+
+theorem mem_split_last {α : Type} [DecidableEq α] {a : α} : ∀ {l : List α}, a ∈ l →
+    ∃ l1 l2, l = l1 ++ a :: l2 ∧ a ∉ l2 := by
+  intro l
+  induction l with
+  | nil => intro h; cases h
+  | cons b l ih =>
+    intro h
+    by_cases hl : a ∈ l
+    · obtain ⟨l1, l2, he, hn⟩ := ih hl
+      exact ⟨b :: l1, l2, by rw [he]; rfl, hn⟩
+    · rcases List.mem_cons.1 h with rfl | h'
+      · exact ⟨[], l, rfl, hl⟩
+      · exact absurd h' hl
+
+/-- every recorded read of a node that has run is in the log after the last run of the node, and if its
+source has a new version since, the change is in the log after the read -/
+def SeenLog (p : Prog) (s : State) : Prop :=
+  ∀ w x v vx, (x, v, vx) ∈ (s.get w).seen → notEffP p x → Ev.ran w ∈ s.log →
+    ∃ l1 m1 m2, s.log = l1 ++ Ev.ran w :: (m1 ++ Ev.rdv w x v :: m2) ∧ Ev.ran w ∉ m1 ∧ Ev.ran w ∉ m2 ∧
+      ((s.get x).ver ≠ vx → HasChg x m2)
+
+structure CInv (p : Prog) (s : State) : Prop where
+  seen : SeenLog p s
+  runs : ∀ w, Ev.ran w ∈ s.log → (s.get w).runs ≠ 0
+
+structure ChgRelS (p : Prog) (s s' : State) (suf : List Ev) : Prop where
+  log : s'.log = s.log ++ suf
+  entry : ∀ w x v vx, (x, v, vx) ∈ (s'.get w).seen → notEffP p x →
+      ((x, v, vx) ∈ (s.get w).seen ∧ Ev.ran w ∉ suf ∧
+        ((s'.get x).ver ≠ vx → (s.get x).ver ≠ vx ∨ HasChg x suf))
+    ∨ (∃ m1 m2, suf = m1 ++ Ev.rdv w x v :: m2 ∧ Ev.ran w ∉ m2 ∧ ((s'.get x).ver ≠ vx → HasChg x m2))
+  sep : SepFrom s.log suf
+  runsNew : ∀ w, Ev.ran w ∈ suf → (s'.get w).runs ≠ 0
+  runsMono : ∀ w, (s.get w).runs ≠ 0 → (s'.get w).runs ≠ 0
+
+def ChgRel (p : Prog) (s s' : State) : Prop := ∃ suf, ChgRelS p s s' suf
+
+theorem ChgRel.refl (p : Prog) (s : State) : ChgRel p s s :=
+  ⟨[], by simp, fun _ _ _ _ he _ => .inl ⟨he, (by simp), fun h => .inl h⟩, trivial,
+    fun _ h => (by cases h), fun _ h => h⟩
+
+theorem ChgRel.trans {p : Prog} {s s' s'' : State} (h1 : ChgRel p s s') (h2 : ChgRel p s' s'') :
+    ChgRel p s s'' := by
+  obtain ⟨a, h1⟩ := h1
+  obtain ⟨b, h2⟩ := h2
+  refine ⟨a ++ b, by rw [h2.log, h1.log, List.append_assoc], ?_, ?_, ?_, fun w h => h2.runsMono w (h1.runsMono w h)⟩
+  · intro w x v vx he hx
+    rcases h2.entry w x v vx he hx with ⟨he', hn2, hv2⟩ | ⟨m1, m2, hs, hn, hv⟩
+    · rcases h1.entry w x v vx he' hx with ⟨he0, hn1, hv1⟩ | ⟨m1, m2, hs, hn, hv⟩
+      · refine .inl ⟨he0, fun hc => ?_, fun hne => ?_⟩
+        · rcases List.mem_append.1 hc with hc | hc
+          · exact hn1 hc
+          · exact hn2 hc
+        · rcases hv2 hne with h' | h'
+          · rcases hv1 h' with h'' | h''
+            · exact .inl h''
+            · exact .inr (h''.append_right _)
+          · exact .inr (h'.append_left _)
+      · refine .inr ⟨m1, m2 ++ b, by rw [hs]; simp, fun hc => ?_, fun hne => ?_⟩
+        · rcases List.mem_append.1 hc with hc | hc
+          · exact hn hc
+          · exact hn2 hc
+        · rcases hv2 hne with h' | h'
+          · exact (hv h').append_right _
+          · exact h'.append_left _
+    · exact .inr ⟨a ++ m1, m2, by rw [hs]; simp, hn, hv⟩
+  · rw [SepFrom.append]
+    exact ⟨h1.sep, by rw [← h1.log]; exact h2.sep⟩
+  · intro w hw
+    rcases List.mem_append.1 hw with hw | hw
+    · exact h2.runsMono w (h1.runsNew w hw)
+    · exact h2.runsNew w hw
+
+theorem CInv.step {p : Prog} {s s' : State} (h : CInv p s) (r : ChgRel p s s') : CInv p s' := by
+  obtain ⟨suf, r⟩ := r
+  constructor
+  · intro w x v vx he hx hran
+    rcases r.entry w x v vx he hx with ⟨he0, hn, hv⟩ | ⟨m1, m2, hs, hn, hv⟩
+    · have hran0 : Ev.ran w ∈ s.log := by
+        rw [r.log] at hran
+        rcases List.mem_append.1 hran with h' | h'
+        · exact h'
+        · exact absurd h' hn
+      obtain ⟨l1, m1, m2, hl, n1, n2, hc⟩ := h.seen w x v vx he0 hx hran0
+      refine ⟨l1, m1, m2 ++ suf, by rw [r.log, hl]; simp, n1, fun hc' => ?_, fun hne => ?_⟩
+      · rcases List.mem_append.1 hc' with h' | h'
+        · exact n2 h'
+        · exact hn h'
+      · rcases hv hne with h' | h'
+        · exact (hc h').append_right _
+        · exact h'.append_left _
+    · have hran0 : Ev.ran w ∈ s.log ++ m1 := by
+        rw [r.log, hs, ← List.append_assoc] at hran
+        rcases List.mem_append.1 hran with h' | h'
+        · exact h'
+        · rcases List.mem_cons.1 h' with h'' | h''
+          · cases h''
+          · exact absurd h'' hn
+      obtain ⟨l1, l2, hl, hn2⟩ := mem_split_last hran0
+      refine ⟨l1, l2, m2, by rw [r.log, hs, ← List.append_assoc, hl]; simp, hn2, hn, hv⟩
+  · intro w hw
+    rw [r.log] at hw
+    rcases List.mem_append.1 hw with hw | hw
+    · exact r.runsMono w (h.runs w hw)
+    · exact r.runsNew w hw
+
+/-- a step that logs no `ran`, keeps every `seen`, and logs a change event for every new version of a
+data node -/
+theorem ChgRel.of_noRan {p : Prog} {s s' : State} {suf : List Ev} (hl : s'.log = s.log ++ suf)
+    (hnr : ∀ w, Ev.ran w ∉ suf) (hseen : ∀ w, (s'.get w).seen = (s.get w).seen)
+    (hver : ∀ x, notEffP p x → (s'.get x).ver ≠ (s.get x).ver → HasChg x suf)
+    (hruns : ∀ w, (s.get w).runs ≠ 0 → (s'.get w).runs ≠ 0) : ChgRel p s s' := by
+  refine ⟨suf, hl, fun w x v vx he hx => .inl ⟨by rw [← hseen]; exact he, hnr w, fun hne => ?_⟩,
+    SepFrom.of_noRan hnr _, fun w hw => absurd hw (hnr w), hruns⟩
+  by_cases hv : (s'.get x).ver = (s.get x).ver
+  · exact .inl (by rw [← hv]; exact hne)
+  · exact .inr (hver x hx hv)
+
+/-- nothing relevant changes -/
+theorem ChgRel.of_same {p : Prog} {s s' : State} (hl : s'.log = s.log)
+    (hseen : ∀ w, (s'.get w).seen = (s.get w).seen) (hver : ∀ x, (s'.get x).ver = (s.get x).ver)
+    (hruns : ∀ w, (s'.get w).runs = (s.get w).runs) : ChgRel p s s' :=
+  ChgRel.of_noRan (suf := []) (by simp [hl]) (fun _ h => by cases h) hseen
+    (fun x _ hne => absurd (hver x) hne) (fun w h => by rw [hruns]; exact h)
+
+/-- the running node `w` records a tracked read -/
+theorem ChgRel.of_rdv {p : Prog} {s s' : State} {w x : Nat} {v : Int}
+    (hl : s'.log = s.log ++ [Ev.rdv w x v])
+    (hsw : (s'.get w).seen = (s.get w).seen ++ [(x, v, (s.get x).ver)])
+    (hso : ∀ i, i ≠ w → (s'.get i).seen = (s.get i).seen)
+    (hver : ∀ i, (s'.get i).ver = (s.get i).ver)
+    (hruns : ∀ i, (s'.get i).runs = (s.get i).runs) : ChgRel p s s' := by
+  have hnr : ∀ i, Ev.ran i ∉ [Ev.rdv w x v] := fun i h => by simp at h
+  refine ⟨_, hl, fun i y u vy he hy => ?_, SepFrom.of_noRan hnr _, fun i hi => absurd hi (hnr i),
+    fun i h => by rw [hruns]; exact h⟩
+  by_cases hi : i = w
+  · subst hi
+    rw [hsw] at he
+    rcases List.mem_append.1 he with he | he
+    · exact .inl ⟨he, hnr i, fun hne => .inl (by rw [← hver]; exact hne)⟩
+    · have := List.mem_singleton.1 he
+      cases this
+      exact .inr ⟨[], [], rfl, (by simp), fun hne => absurd (hver _) hne⟩
+  · exact .inl ⟨by rw [← hso i hi]; exact he, hnr i, fun hne => .inl (by rw [← hver]; exact hne)⟩
+
+/-- node `m` starts a run (`noteRun`): justified by a recorded read whose source has a new version -/
+theorem ChgRel.of_ran {p : Prog} {s s' : State} {m : Nat} {pre : List Ev} (hc : CInv p s)
+    (hl : s'.log = s.log ++ (pre ++ [Ev.ran m])) (hpre : ∀ ev ∈ pre, ev = Ev.unjust m)
+    (hsm : (s'.get m).seen = []) (hso : ∀ i, i ≠ m → (s'.get i).seen = (s.get i).seen)
+    (hver : ∀ i, (s'.get i).ver = (s.get i).ver) (hrm : (s'.get m).runs ≠ 0)
+    (hro : ∀ i, i ≠ m → (s'.get i).runs = (s.get i).runs)
+    (hj : (s.get m).runs ≠ 0 → ∃ e ∈ (s.get m).seen, notEffP p e.1 ∧ (s.get e.1).ver ≠ e.2.2) :
+    ChgRel p s s' := by
+  have hnp : ∀ w, Ev.ran w ∉ pre := fun w hw => by have := hpre _ hw; cases this
+  have hmem : ∀ w, Ev.ran w ∈ pre ++ [Ev.ran m] → w = m := by
+    intro w hw
+    rcases List.mem_append.1 hw with hw | hw
+    · exact absurd hw (hnp w)
+    · have := List.mem_singleton.1 hw; cases this; rfl
+  refine ⟨_, hl, fun i y u vy he hy => ?_, ?_, fun w hw => by rw [hmem w hw]; exact hrm, fun w h => ?_⟩
+  · by_cases hi : i = m
+    · subst hi; rw [hsm] at he; cases he
+    · exact .inl ⟨by rw [← hso i hi]; exact he, fun hc' => hi (hmem i hc'),
+        fun hne => .inl (by rw [← hver]; exact hne)⟩
+  · rw [SepFrom.append]
+    refine ⟨SepFrom.of_noRan hnp _, fun w hw hin => ?_, trivial⟩
+    cases hw
+    have hin0 : Ev.ran m ∈ s.log := by
+      rcases List.mem_append.1 hin with h' | h'
+      · exact h'
+      · exact absurd h' (hnp m)
+    obtain ⟨e, he, hne, hv⟩ := hj (hc.runs m hin0)
+    obtain ⟨x, v, vx⟩ := e
+    obtain ⟨l1, m1, m2, hlog, n1, n2, hch⟩ := hc.seen m x v vx he hne hin0
+    refine ⟨l1, m1, m2 ++ pre, x, v, by rw [hlog]; simp, n1, fun hc' => ?_, (hch hv).append_right _⟩
+    rcases List.mem_append.1 hc' with h' | h'
+    · exact n2 h'
+    · exact hnp m h'
+  · by_cases hw : w = m
+    · subst hw; exact hrm
+    · rw [hro w hw]; exact h
+
 end Leptos.Reactive
